@@ -15,7 +15,7 @@ from . import tlc
 from .common import NCPU, Timer, import_doctrans, seed, tier
 
 EMIT_OPS = ("class", "class_call", "function", "argparse", "rest", "numpydoc", "google")
-PARSE_OPS = ("parse_function", "parse_class")
+PARSE_OPS = ("parse_function", "parse_class", "parse_argparse")
 NONE_STR = "```(None)```"
 
 FUNC_SRC = '''
@@ -87,7 +87,33 @@ class C(object):
         """
         return epochs
 '''
-AST_SHAPES = {"doc": (FUNC_SRC, CLASS_SRC), "nodoc": (FUNC_NODOC_SRC, CLASS_NODOC_SRC), "methods": (FUNC_SRC, CLASS_METHODS_SRC)}
+ARGPARSE_SRC = '''
+def set_cli_args(argument_parser):
+    """
+    Set CLI arguments
+
+    :param argument_parser: argument parser
+    :type argument_parser: ```ArgumentParser```
+
+    :returns: argument_parser
+    :rtype: ```ArgumentParser```
+    """
+    argument_parser.description = "Train the model."
+    argument_parser.add_argument("--dataset_name", help="name of dataset.", required=True, default="mnist")
+    extra = 1
+    argument_parser.add_argument("--epochs", type=int, help="number of epochs.", required=True, default=5)
+    return argument_parser
+'''
+ARGPARSE_NODOC_SRC = '''
+def set_cli_args(argument_parser):
+    argument_parser.description = "Train the model."
+    argument_parser.add_argument("--dataset_name", help="name of dataset.", required=True, default="mnist")
+    extra = 1
+    argument_parser.add_argument("--epochs", type=int, help="number of epochs.", required=True, default=5)
+    return argument_parser
+'''
+AST_SHAPES = {"doc": (FUNC_SRC, CLASS_SRC, ARGPARSE_SRC), "nodoc": (FUNC_NODOC_SRC, CLASS_NODOC_SRC, ARGPARSE_NODOC_SRC),
+              "methods": (FUNC_SRC, CLASS_METHODS_SRC, ARGPARSE_SRC)}
 
 
 def base_irs():
@@ -145,6 +171,8 @@ def call(op, obj):
         return canon_ir(parse.function(obj["function"]))
     if op == "parse_class":
         return canon_ir(parse.class_(obj["class"], merge_inner_function="__init__"))
+    if op == "parse_argparse":
+        return canon_ir(parse.argparse_ast(obj["argparse"]))
     raise ValueError(op)
 
 
@@ -179,8 +207,8 @@ def run_seq(sc):
     import_doctrans()
     try:
         if sc["kind"] == "ast":
-            fsrc, csrc = AST_SHAPES[sc.get("shape", "doc")]
-            pristine = {"function": ast.parse(fsrc).body[0], "class": ast.parse(csrc).body[0]}
+            fsrc, csrc, asrc = AST_SHAPES[sc.get("shape", "doc")]
+            pristine = {"function": ast.parse(fsrc).body[0], "class": ast.parse(csrc).body[0], "argparse": ast.parse(asrc).body[0]}
         else:
             pristine = sc["ir"]
         shared = deepcopy(pristine)
@@ -219,7 +247,7 @@ def run(prop="C13", propose=False, replay=None):
         for s in seqs + (l5 if thorough and name in ("plain_ret", "body_ret") else []):
             scs.append({"kind": "ir", "irname": name, "ir": ir, "ops": list(s)})
     for shape in AST_SHAPES:
-        for n in ((1, 2, 3, 4, 5, 6) if thorough else (1, 2, 3, 4)):
+        for n in ((1, 2, 3, 4, 5) if thorough else (1, 2, 3)):
             for s in itertools.product(PARSE_OPS, repeat=n):
                 scs.append({"kind": "ast", "irname": "ast" if shape == "doc" else "ast-" + shape, "shape": shape, "ops": list(s)})
     if replay:
